@@ -103,7 +103,10 @@ Definition flush (s : rb) : res (list termop * rb) :=
 (* the terminal: the mock terminal's grid *)
 
 Record tcell := mkT { t_text : list Z; t_pen : pen }.
-Record term := mkTerm { t_lines : Z; t_cols : Z; tg : list (list tcell); t_line : Z; t_col : Z; t_cur : pen }.
+(* [t_maybe]: does erasech(..., TICKIT_MAYBE) move the cursor to the end of the erased range?
+   Both behaviours are legal for a terminal driver (the mock terminal moves; xterm's ECH does
+   not); the flush must be right under either. *)
+Record term := mkTerm { t_lines : Z; t_cols : Z; tg : list (list tcell); t_line : Z; t_col : Z; t_cur : pen; t_maybe : bool }.
 
 (* pens on the terminal are compared by their values (tickit_term_setpen leaves the terminal's
    pen equivalent to the one given); keep them in the all-attributes-present form *)
@@ -116,8 +119,8 @@ Definition bound (v lo hi : Z) : Z := if v <? lo then lo else if v >? hi then hi
 Definition t_set_cells (t : term) (line : Z) (f : Z -> tcell -> tcell) : term :=
   mkTerm (t_lines t) (t_cols t)
          (mapi (fun y r => if y =? line then mapi f r else r) (tg t))
-         (t_line t) (t_col t) (t_cur t).
-Definition t_move (t : term) (l c : Z) : term := mkTerm (t_lines t) (t_cols t) (tg t) l c (t_cur t).
+         (t_line t) (t_col t) (t_cur t) (t_maybe t).
+Definition t_move (t : term) (l c : Z) : term := mkTerm (t_lines t) (t_cols t) (tg t) l c (t_cur t) (t_maybe t).
 
 (* the grapheme loop of mtd_print.  [pos] is the position reached in [s] (columns counted
    from the cursor column at the start of the print), [lim] the column limit of the previous
@@ -145,17 +148,17 @@ Fixpoint t_print_loop (fuel : nat) (t : term) (s : list Z) (pos : spos) (lim : Z
 Definition t_apply (t : term) (o : termop) : res term :=
   match o with
   | TGoto l c => Ok (t_move t (bound l 0 (t_lines t - 1)) (bound c 0 (t_cols t - 1)))
-  | TSetPen p => Ok (mkTerm (t_lines t) (t_cols t) (tg t) (t_line t) (t_col t) (canon_pen p))
+  | TSetPen p => Ok (mkTerm (t_lines t) (t_cols t) (tg t) (t_line t) (t_col t) (canon_pen p) (t_maybe t))
   | TPrint s =>
       if (0 <=? t_line t) && (t_line t <? t_lines t) && (0 <=? t_col t) then
         t_print_loop (2 * length s + 2) t s (mkPos 0 0 (t_col t)) (t_col t)
       else Fault
-  | TErase n _ =>
+  | TErase n moveend =>
       if (0 <=? t_line t) && (t_line t <? t_lines t) && (0 <=? t_col t) then
         let right := bound (t_col t + n) 0 (t_cols t) in
         Ok (t_move (t_set_cells t (t_line t)
                       (fun x c => if (t_col t <=? x) && (x <? right) then mkT [32] (t_cur t) else c))
-                   (t_line t) right)
+                   (t_line t) (if moveend || t_maybe t then right else t_col t))
       else Fault
   end.
 
@@ -169,8 +172,8 @@ Fixpoint t_run (t : term) (ops : list termop) : res term :=
 Definition sentinel_cell (l c : Z) : tcell :=
   mkT [0x61 + (l * 7 + c * 3) mod 26] (canon_pen (mkPen (Some (16 + (l + 2 * c) mod 5)) None None None)).
 
-Definition t_init (lines cols gl gc : Z) (p : pen) : term :=
+Definition t_init (lines cols gl gc : Z) (p : pen) (maybe_moves : bool) : term :=
   mkTerm lines cols
     (map (fun l => map (fun c => sentinel_cell l c) (map Z.of_nat (seq 0 (Z.to_nat cols))))
          (map Z.of_nat (seq 0 (Z.to_nat lines))))
-    (bound gl 0 (lines - 1)) (bound gc 0 (cols - 1)) (canon_pen p).
+    (bound gl 0 (lines - 1)) (bound gc 0 (cols - 1)) (canon_pen p) maybe_moves.
